@@ -19,6 +19,25 @@ CLAIMS = {
          "label/context and every hash function, over any lawful back-end; default/explicit generator interchange. Prover compared "
          "nonce-by-nonce with the model (injected tapes), exhaustively over (x, nonce) on small groups.", "6 C05",
          "Ristretto only under the Lawful hypothesis and not yet in the stream."),
+ "C02": ("Theorems (all N, all lists, any lawful back-end): apply_permutation returns exactly re-encryptions of input perm[k] under exponent rs[perm[k]] "
+         "(with the panic cases characterised), re-encryption = product with an encryption of 1, re-encryption preserves decryption, multiset of "
+         "decryptions preserved for every permutation, through any cascade of mixers, and through division by any combined (threshold) factor. "
+         "Stream: apply_permutation / gen_shuffle with injected exponents vs model, all N! permutations N<=4 on small groups, cascades.", "6 C02",
+         "Ristretto only under the Lawful hypothesis and not yet in the stream."),
+ "C07": ("Theorems: released factor+proof verify (keymaker and threshold form); dividing by (any representative of) the true factor = decryption; "
+         "batch verifier = conjunction of the single verifications (iff, with the length-mismatch panic characterised); CP verify iff; special soundness: "
+         "a factor accepted for two challenges is the true factor. Stream: factor/proof generation vs model, batches with one invalid pair at every position.", "6 C07",
+         "Rejection of a wrong factor from a single transcript is computational (ROM), outside any theorem."),
+ "C08": ("Theorems (n unbounded): joint key = product of shares in any order; share proofs verify; joint decryption by all n factors (any order) recovers m; "
+         "lists position by position (iff); omitting/duplicating a factor yields m iff that share or the randomness is 0 (q prime). Stream: keymaker wrappers vs model, all orders n<=4.", "6 C08",
+         "Ristretto only under the Lawful hypothesis."),
+ "C09": ("Theorems: Feldman check holds for ALL thresholds t>=1, receivers and coefficient lists (closed forms of share and verification-key factor); altered share rejected "
+         "(q prime, g != 1); closed witness that the pinned machine-integer power fails at receiver 15, t = 17 (defect F2, fixed). Stream: all (t, receiver) up to 24 on small groups.", "6 C09",
+         "t = 0 is excluded (the model shows the comparison is false there; the library is never called with t = 0)."),
+ "C10": ("Theorems: the library's Lagrange coefficient equals the Lagrange basis at 0 (Mathlib), sum_i lambda_i P(i) = P(0) for deg P < |S| in any listing order, "
+         "threshold reconstruction decrypts (incl. end-to-end from dealer coefficient lists), below threshold the shares do not determine the secret. "
+         "Stream: lagrange and full reconstructions for all subsets of {1..n}, n<=6, three orders.", "6 C10",
+         "Hypotheses: q prime, distinct indices 0 < i < q."),
  "C15": ("Theorems: the multiplicative back-ends satisfy the specification `Lawful` for every safe-prime parameter set (natLawful); "
          "group and exponent-ring laws derived generically; exp_sub_mod; kernel-checked facts p=2q+1, 1<g<p, g^q=1, cofactor on the "
          "constants regenerated from /repo. Every trait method compared with the model (= independent bigint reference) exhaustively on small groups.", "6 C15",
